@@ -222,7 +222,7 @@ class Hist:
                 o = self.w.obj[bi]
                 # (an interval adopted from a loaded file may declare a size near 2^64: no attempt to store that many bytes)
                 v = rng.choice([0, 1, o.size, o.size + 1, o.size + 8, 40] if o.size < (1 << 16) else [0, 1, 40, 64])
-                self.emit([29, bi, v], model_it=[15, bi, max(o.size, v)])
+                self.emit([29, bi, v])
         elif r < 0.65 and (self.by_kind["CodeBlock"] or self.by_kind["DataBlock"]):
             b = rng.choice(self.by_kind["CodeBlock"] + self.by_kind["DataBlock"])
             if rng.random() < 0.5:
